@@ -411,18 +411,78 @@ func streamMain(args []string) {
 				Expected: fmt.Sprintf("%.300q", pr.want), Observed: fmt.Sprintf("%.300q", pr.got)})
 		}
 	}
-	// Output(): everything the child printed
-	for i := 0; i < nB/4+3; i++ {
-		s := genStream(rnd, 6, 16)
-		if !strings.HasSuffix(s, "\n") && s != "" {
-			s += "\n"
+	// Output() / OutputWithEnvironment(): everything the child printed on BOTH streams, whatever its exit status
+	for i := 0; i < nB/2+6; i++ {
+		mkLines := func(tag string) (string, []string) {
+			var sb strings.Builder
+			var ls []string
+			for k, n := 0, rnd.Intn(5); k < n; k++ {
+				l := fmt.Sprintf("%s%d-%x", tag, k, rnd.U64()%0xffffff)
+				ls = append(ls, l)
+				sb.WriteString(l + "\n")
+				if rnd.Chance(20) {
+					sb.WriteString("\n") // an empty line: dropped
+				}
+			}
+			return sb.String(), ls
 		}
+		so, wantO := mkLines("out")
+		se, wantE := mkLines("err")
+		var steps []string
+		withEnv := rnd.Chance(30)
+		if withEnv {
+			steps = append(steps, "env:VERIF_EXTRA")
+			wantO = append([]string{"VERIF_EXTRA=output value " + strconv.Itoa(i)}, wantO...)
+		}
+		if so != "" {
+			steps = append(steps, "o:"+hex.EncodeToString([]byte(so))+":0")
+		}
+		if se != "" {
+			steps = append(steps, "e:"+hex.EncodeToString([]byte(se))+":0")
+		}
+		code, sig := 0, 0
+		switch x := i % 5; {
+		case x == 1 || x == 2:
+			code = []int{1, 3, 42, 255}[rnd.Intn(4)]
+			steps = append(steps, "exit:"+strconv.Itoa(code))
+		case x == 3:
+			sig = []int{9, 15}[rnd.Intn(2)]
+			steps = append(steps, "sig:"+strconv.Itoa(sig))
+		}
+		script := strings.Join(steps, ";")
 		rec := &recLoggers{}
-		out, err := subprocess.Output(context.Background(), rec, exe, "child", "o:"+hex.EncodeToString([]byte(s))+":0")
-		rep.Eval("Output "+s, s != "")
-		rep.Hist("B:Output()")
-		if err != nil || !eqStr(nonEmptyLines(out), nonEmptyLines(s)) {
-			rep.Fail(hx.Failure{Kind: "impl-violates-property", Key: "output-mismatch", Case: fmt.Sprintf("Output %q", s), Expected: fmt.Sprintf("%q", nonEmptyLines(s)), Observed: fmt.Sprintf("%q %v", out, err)})
+		var out string
+		var err error
+		if withEnv {
+			out, err = subprocess.OutputWithEnvironment(context.Background(), rec, []string{"VERIF_EXTRA=output value " + strconv.Itoa(i)}, exe, "child", script)
+		} else {
+			out, err = subprocess.Output(context.Background(), rec, exe, "child", script)
+		}
+		caseTxt := fmt.Sprintf("Output child %s", script)
+		rep.Eval(caseTxt, len(wantO)+len(wantE) > 0)
+		rep.Hist(fmt.Sprintf("B:Output() exit=%v sig=%v env=%v", code != 0, sig != 0, withEnv))
+		if (err == nil) != (code == 0 && sig == 0) {
+			rep.Fail(hx.Failure{Kind: "impl-violates-property", Key: "output-status-mismatch", Case: caseTxt, Expected: fmt.Sprint("nil error: ", code == 0 && sig == 0), Observed: fmt.Sprint(err)})
+		}
+		got := nonEmptyLines(out)
+		var gotO, gotE, other []string
+		for _, l := range got {
+			switch {
+			case strings.HasPrefix(l, "out") || strings.HasPrefix(l, "VERIF_EXTRA="):
+				gotO = append(gotO, l)
+			case strings.HasPrefix(l, "err"):
+				gotE = append(gotE, l)
+			default:
+				other = append(other, l)
+			}
+		}
+		if !eqStr(gotO, wantO) || !eqStr(gotE, wantE) || len(other) > 0 {
+			key := "output-mismatch"
+			if code != 0 || sig != 0 {
+				key = "output-mismatch:unsuccessful-child"
+			}
+			rep.Fail(hx.Failure{Kind: "impl-violates-property", Key: key, Case: caseTxt,
+				Expected: fmt.Sprintf("stdout lines %q and stderr lines %q, each in order", wantO, wantE), Observed: fmt.Sprintf("%q (error: %v)", out, err)})
 		}
 	}
 	// cancellation => context kind
